@@ -54,12 +54,17 @@ enum Call {
     Create(u64),
     Hdr(u64),
     Ent(u64, u64, u64), // file sequence, write id, encoded size
+    Del(u64),
 }
 #[derive(Clone, Debug)]
 enum Raw {
     Sent(u64),
     Io(Call, Outc),
     Wake(u64),
+    /// a task called handle.truncate(t)
+    TruncSent(u64),
+    /// the actor started truncate_before (it lists the store)
+    TruncStart,
 }
 #[derive(Clone, Copy, Debug)]
 struct Fault {
@@ -72,6 +77,9 @@ struct FileImg {
     synced: usize,
     /// end offsets of the items (header / entry / torn piece) appended so far
     ends: Vec<usize>,
+    /// files are never modified in place: a create() over an existing name or a delete()
+    /// retires the old generation, so a snapshot (which names generations) stays valid
+    gen: usize,
 }
 /// What is on disk when an incarnation starts: name -> (bytes, item end offsets).
 type Image = BTreeMap<String, (Vec<u8>, Vec<usize>)>;
@@ -84,9 +92,15 @@ struct World {
     t0: Option<tokio::time::Instant>,
     ncalls: usize,
     faults: BTreeMap<usize, Fault>,
-    /// snaps[j] = (synced length, length) of every existing file after j mutating calls
-    snaps: Vec<Vec<(String, usize, usize)>>,
+    /// snaps[j] = (generation, synced length, length) of every existing file after j mutating calls
+    snaps: Vec<Vec<(String, usize, usize, usize)>>,
     clobbered: Vec<String>,
+    dead: Vec<FileImg>,
+    next_gen: usize,
+    /// set once spawn_wal_actor has returned: a later list() is the actor's truncate_before
+    running: bool,
+    trunc_sent: Vec<u64>,
+    vanished: Vec<String>,
     results: BTreeMap<u64, Result<(), String>>,
 }
 impl World {
@@ -97,8 +111,15 @@ impl World {
         self.raw.push(r);
     }
     fn snap(&mut self) {
-        let s = self.files.iter().map(|(n, f)| (n.clone(), f.synced, f.data.len())).collect();
+        let s = self.files.iter().map(|(n, f)| (n.clone(), f.gen, f.synced, f.data.len())).collect();
         self.snaps.push(s);
+    }
+    fn install(&mut self, name: &str, mut f: FileImg) {
+        f.gen = self.next_gen;
+        self.next_gen += 1;
+        if let Some(old) = self.files.insert(name.to_string(), f) {
+            self.dead.push(old);
+        }
     }
     fn fault(&mut self) -> Option<Fault> {
         let f = self.faults.get(&self.ncalls).copied();
@@ -113,6 +134,7 @@ struct ScriptWriter {
     seq: u64,
     world: Arc<Mutex<World>>,
     size: u64,
+    gen: usize,
 }
 struct ScriptReader(Vec<u8>);
 
@@ -146,11 +168,20 @@ impl WalFileWriter for ScriptWriter {
                 _ => (data.len(), Err(io_err(idx))), // everything written, error reported anyway
             },
         };
-        let file = w.files.get_mut(&self.name).expect("file exists after create");
-        file.data.extend_from_slice(&data[..written]);
-        if written > 0 {
-            let e = file.data.len();
-            file.ends.push(e);
+        let gen = self.gen;
+        match w.files.get_mut(&self.name).filter(|f| f.gen == gen) {
+            Some(file) => {
+                file.data.extend_from_slice(&data[..written]);
+                if written > 0 {
+                    let e = file.data.len();
+                    file.ends.push(e);
+                }
+            }
+            None => {
+                // the file was deleted or replaced under a live writer
+                let n = self.name.clone();
+                w.vanished.push(n);
+            }
         }
         let outc = match &res {
             Ok(()) => Outc::Ok,
@@ -169,7 +200,8 @@ impl WalFileWriter for ScriptWriter {
         let fault = w.fault();
         let res = match fault {
             None => {
-                if let Some(f) = w.files.get_mut(&self.name) {
+                let gen = self.gen;
+                if let Some(f) = w.files.get_mut(&self.name).filter(|f| f.gen == gen) {
                     f.synced = f.data.len();
                 }
                 Ok(())
@@ -206,8 +238,9 @@ impl WalStore for ScriptStore {
             if w.files.contains_key(name) {
                 w.clobbered.push(name.to_string());
             }
-            w.files.insert(name.to_string(), FileImg::default());
+            w.install(name, FileImg::default());
         }
+        let gen = w.files.get(name).map(|f| f.gen).unwrap_or(usize::MAX);
         let outc = match (&res, made) {
             (Ok(()), _) => Outc::Ok,
             (Err(_), false) => Outc::Err(Eff::None),
@@ -215,18 +248,40 @@ impl WalStore for ScriptStore {
         };
         w.log(Raw::Io(Call::Create(seq), outc));
         w.snap();
-        res.map(|_| ScriptWriter { name: name.to_string(), seq, world: Arc::clone(&self.0), size: 0 })
+        res.map(|_| ScriptWriter { name: name.to_string(), seq, world: Arc::clone(&self.0), size: 0, gen })
     }
     fn open_read(&self, name: &str) -> Result<ScriptReader, WalError> {
         let w = self.0.lock().unwrap();
         w.files.get(name).map(|f| ScriptReader(f.data.clone())).ok_or_else(|| WalError::NotFound(name.to_string()))
     }
     fn list(&self) -> Result<Vec<String>, WalError> {
-        Ok(self.0.lock().unwrap().files.keys().cloned().collect())
+        let mut w = self.0.lock().unwrap();
+        if w.running {
+            w.log(Raw::TruncStart);
+        }
+        Ok(w.files.keys().cloned().collect())
     }
     fn delete(&self, name: &str) -> Result<(), WalError> {
-        self.0.lock().unwrap().files.remove(name);
-        Ok(())
+        let mut w = self.0.lock().unwrap();
+        let idx = w.ncalls;
+        let fault = w.fault();
+        let (gone, res) = match fault {
+            None => (true, Ok(())),
+            Some(f) => (f.kind % 2 == 1, Err(io_err(idx))),
+        };
+        if gone {
+            if let Some(old) = w.files.remove(name) {
+                w.dead.push(old);
+            }
+        }
+        let outc = match (&res, gone) {
+            (Ok(()), _) => Outc::Ok,
+            (Err(_), false) => Outc::Err(Eff::None),
+            (Err(_), true) => Outc::Err(Eff::Full),
+        };
+        w.log(Raw::Io(Call::Del(seq_of(name)), outc));
+        w.snap();
+        res
     }
     fn exists(&self, name: &str) -> Result<bool, WalError> {
         Ok(self.0.lock().unwrap().files.contains_key(name))
@@ -290,6 +345,8 @@ struct Plan {
     faults: BTreeMap<usize, Fault>,
     /// a separate task sends Shutdown at this virtual time, while writers may be in flight
     shutdown_at_us: Option<u64>,
+    /// separate tasks call handle.truncate(t) at these virtual times: (at_us, t)
+    truncs: Vec<(u64, u64)>,
 }
 
 fn make_delta(id: u64, vlen: usize) -> ReplicationDelta {
@@ -305,12 +362,14 @@ enum Item {
     Io(Call, Outc),
     Ack(u64, bool),
     Down, // the response to the mid-run Shutdown was sent
+    Trunc(u64), // the actor started truncate_before(t)
 }
 #[derive(Clone, Debug, PartialEq, Eq)]
 enum Sched {
     Write(u64, u64),
     Flush,
     Shutdown,
+    Trunc(u64),
 }
 struct Run {
     items: Vec<Item>,
@@ -326,9 +385,9 @@ struct Run {
     ncalls: usize,
     problems: Vec<String>,
     actor_panicked: bool,
-    /// final content of every file, with item boundaries
-    files: BTreeMap<String, FileImg>,
-    snaps: Vec<Vec<(String, usize, usize)>>,
+    /// final content of every file generation, with item boundaries
+    files: BTreeMap<usize, FileImg>,
+    snaps: Vec<Vec<(String, usize, usize, usize)>>,
 }
 
 /// The real recovery on a given disk image.
@@ -358,7 +417,7 @@ fn recover_image(img: &[(String, &[u8])], max_file_size: usize, vlens: &BTreeMap
 impl Run {
     /// the image a crash at instant j leaves when nothing unsynced survives
     fn crash_image(&self, j: usize) -> Vec<(String, &[u8])> {
-        self.snaps[j].iter().map(|(n, synced, _)| (n.clone(), &self.files[n].data[..*synced])).collect()
+        self.snaps[j].iter().map(|(n, g, synced, _)| (n.clone(), &self.files[g].data[..*synced])).collect()
     }
 }
 
@@ -368,7 +427,7 @@ fn run_plan(plan: &Plan, init: &Image) -> Run {
         let mut w = world.lock().unwrap();
         w.faults = plan.faults.clone();
         for (n, (data, ends)) in init {
-            w.files.insert(n.clone(), FileImg { data: data.clone(), synced: data.len(), ends: ends.clone() });
+            w.install(n, FileImg { data: data.clone(), synced: data.len(), ends: ends.clone(), gen: 0 });
         }
         w.snap();
     }
@@ -395,7 +454,23 @@ fn run_plan(plan: &Plan, init: &Image) -> Run {
                 return;
             }
         };
+        world.lock().unwrap().running = true;
         let mut joins = Vec::new();
+        for (at, t) in plan.truncs.clone() {
+            let h = handle.clone();
+            let world = Arc::clone(&world);
+            joins.push(tokio::spawn(async move {
+                if at > 0 {
+                    tokio::time::sleep(Duration::from_micros(at)).await;
+                }
+                {
+                    let mut w = world.lock().unwrap();
+                    w.log(Raw::TruncSent(t));
+                    w.trunc_sent.push(t);
+                }
+                h.truncate(t);
+            }));
+        }
         for t in &plan.tasks {
             let h = handle.clone();
             let specs = t.clone();
@@ -473,6 +548,7 @@ fn run_plan(plan: &Plan, init: &Image) -> Run {
     sent.retain(|id| !unhandled.contains(id));
     let mut items = Vec::new();
     let mut items_t: Vec<u64> = Vec::new();
+    let mut n_trunc = 0usize;
     let mut sizes = BTreeMap::new();
     for (p, r) in w.raw.iter().enumerate() {
         match r {
@@ -482,6 +558,16 @@ fn run_plan(plan: &Plan, init: &Image) -> Run {
                 }
                 items.push(Item::Io(*c, *o));
                 items_t.push(w.raw_t[p]);
+            }
+            Raw::TruncStart => {
+                match w.trunc_sent.get(n_trunc) {
+                    Some(t) => {
+                        items.push(Item::Trunc(*t));
+                        items_t.push(w.raw_t[p]);
+                    }
+                    None => problems.push("the store was listed although no truncate request was outstanding".to_string()),
+                }
+                n_trunc += 1;
             }
             Raw::Wake(id) if *id == SHUT_ID => {
                 if last_wake.get(id) == Some(&p) {
@@ -544,6 +630,10 @@ fn run_plan(plan: &Plan, init: &Image) -> Run {
                     in_burst = false;
                 }
             }
+            Item::Trunc(t) => {
+                sched.push(Sched::Trunc(*t));
+                in_burst = false;
+            }
             Item::Down => {
                 // the acks just before the response are the Shutdown's own final flush
                 // (same virtual instant; a batch flushed earlier is a flush of its own)
@@ -561,7 +651,10 @@ fn run_plan(plan: &Plan, init: &Image) -> Run {
         problems.push(format!("writes handled in order {:?} but sent in order {:?}", handled, sent));
     }
     if !w.clobbered.is_empty() {
-        problems.push(format!("create() replaced existing file(s) {:?}", w.clobbered));
+        problems.push(format!("create() replaced (truncated) existing WAL file(s) {:?}", w.clobbered));
+    }
+    if !w.vanished.is_empty() {
+        problems.push(format!("file(s) {:?} were deleted or replaced while a writer was still appending to them", w.vanished));
     }
     let ncalls = w.ncalls;
     // ---- who was acked before call j+1 started
@@ -608,7 +701,10 @@ fn run_plan(plan: &Plan, init: &Image) -> Run {
         ncalls,
         problems,
         actor_panicked,
-        files: std::mem::take(&mut w.files),
+        files: {
+            let dead = std::mem::take(&mut w.dead);
+            std::mem::take(&mut w.files).into_values().chain(dead).map(|f| (f.gen, f)).collect()
+        },
         snaps: std::mem::take(&mut w.snaps),
     }
 }
@@ -625,19 +721,47 @@ fn fixed_plan(i: u64) -> Option<Plan> {
     let six = |sleep: u64| -> Vec<Vec<WriteSpec>> { (1..=6).map(|id| vec![WriteSpec { id, vlen: 2, sleep_us: sleep }]).collect() };
     match i {
         // 6 concurrent durable writes, max_file_size 200: the batch straddles rotations
-        0 => Some(Plan { max_file_size: 200, max_entries: 8, max_wait_us: 50, tasks: six(0), faults: BTreeMap::new(), shutdown_at_us: None }),
+        0 => Some(Plan { max_file_size: 200, max_entries: 8, max_wait_us: 50, tasks: six(0), faults: BTreeMap::new(), shutdown_at_us: None, truncs: Vec::new() }),
         // one file; the append of the 4th entry of the batch fails with nothing written
-        1 => Some(Plan { max_file_size: 1 << 20, max_entries: 8, max_wait_us: 50, tasks: six(0), faults: [(5usize, Fault { kind: 0, frac: 0 })].into_iter().collect(), shutdown_at_us: None }),
+        1 => Some(Plan { max_file_size: 1 << 20, max_entries: 8, max_wait_us: 50, tasks: six(0), faults: [(5usize, Fault { kind: 0, frac: 0 })].into_iter().collect(), shutdown_at_us: None, truncs: Vec::new() }),
         // partial append in the middle of the batch
-        2 => Some(Plan { max_file_size: 1 << 20, max_entries: 8, max_wait_us: 50, tasks: six(0), faults: [(4usize, Fault { kind: 2, frac: 40 })].into_iter().collect(), shutdown_at_us: None }),
+        2 => Some(Plan { max_file_size: 1 << 20, max_entries: 8, max_wait_us: 50, tasks: six(0), faults: [(4usize, Fault { kind: 2, frac: 40 })].into_iter().collect(), shutdown_at_us: None, truncs: Vec::new() }),
         // rotation in the batch and the new file cannot be created
-        3 => Some(Plan { max_file_size: 200, max_entries: 8, max_wait_us: 50, tasks: six(0), faults: [(4usize, Fault { kind: 0, frac: 0 })].into_iter().collect(), shutdown_at_us: None }),
+        3 => Some(Plan { max_file_size: 200, max_entries: 8, max_wait_us: 50, tasks: six(0), faults: [(4usize, Fault { kind: 0, frac: 0 })].into_iter().collect(), shutdown_at_us: None, truncs: Vec::new() }),
         // Shutdown arrives inside the group-commit wait window of an open batch and the final fsync fails
-        4 => Some(Plan { max_file_size: 1 << 20, max_entries: 8, max_wait_us: 50, tasks: six(0), faults: [(8usize, Fault { kind: 0, frac: 0 })].into_iter().collect(), shutdown_at_us: Some(10) }),
+        4 => Some(Plan { max_file_size: 1 << 20, max_entries: 8, max_wait_us: 50, tasks: six(0), faults: [(8usize, Fault { kind: 0, frac: 0 })].into_iter().collect(), shutdown_at_us: Some(10), truncs: Vec::new() }),
         // the same, the final fsync succeeds
-        5 => Some(Plan { max_file_size: 1 << 20, max_entries: 8, max_wait_us: 50, tasks: six(0), faults: BTreeMap::new(), shutdown_at_us: Some(10) }),
+        5 => Some(Plan { max_file_size: 1 << 20, max_entries: 8, max_wait_us: 50, tasks: six(0), faults: BTreeMap::new(), shutdown_at_us: Some(10), truncs: Vec::new() }),
         // Shutdown queued behind a batch that straddles a rotation; the final fsync fails
-        6 => Some(Plan { max_file_size: 200, max_entries: 64, max_wait_us: 200, tasks: six(0), faults: [(11usize, Fault { kind: 0, frac: 0 })].into_iter().collect(), shutdown_at_us: Some(0) }),
+        6 => Some(Plan { max_file_size: 200, max_entries: 64, max_wait_us: 200, tasks: six(0), faults: [(11usize, Fault { kind: 0, frac: 0 })].into_iter().collect(), shutdown_at_us: Some(0), truncs: Vec::new() }),
+        _ => None,
+    }
+}
+
+/// Fixed regression histories: a list of (plan, instant at which that incarnation is crashed).
+fn fixed_history(i: u64) -> Option<Vec<(Plan, Option<usize>)>> {
+    if let Some(p) = fixed_plan(i) {
+        return Some(vec![(p, None)]);
+    }
+    let one = |id: u64, sleep_us: u64| vec![WriteSpec { id, vlen: 2, sleep_us }];
+    match i {
+        // rotation, crash between the creation of the new file and its first fsync, restart,
+        // more writes: the new incarnation must not reuse (truncate) wal-00000001.wal
+        7 => {
+            let a = Plan { max_file_size: 200, max_entries: 3, max_wait_us: 50, tasks: (1..=6).map(|id| one(id, 0)).collect(), faults: BTreeMap::new(), shutdown_at_us: None, truncs: Vec::new() };
+            let b = Plan { max_file_size: 200, max_entries: 3, max_wait_us: 50, tasks: (7..=8).map(|id| one(id, 0)).collect(), faults: BTreeMap::new(), shutdown_at_us: None, truncs: Vec::new() };
+            Some(vec![(a, Some(8)), (b, None)])
+        }
+        // a closed file holds the stamps 5, 1, 3 (in that order); TruncateUpTo(3) must keep it
+        8 => Some(vec![(
+            Plan { max_file_size: 200, max_entries: 8, max_wait_us: 50, tasks: vec![one(5, 0), one(1, 0), one(3, 0), one(9, 2000)], faults: BTreeMap::new(), shutdown_at_us: None, truncs: vec![(5000, 3)] },
+            None,
+        )]),
+        // the same with TruncateUpTo(5): the file may go, 9 must stay
+        9 => Some(vec![(
+            Plan { max_file_size: 200, max_entries: 8, max_wait_us: 50, tasks: vec![one(5, 0), one(1, 0), one(3, 0), one(9, 2000)], faults: BTreeMap::new(), shutdown_at_us: None, truncs: vec![(5000, 5)] },
+            None,
+        )]),
         _ => None,
     }
 }
@@ -652,19 +776,31 @@ fn gen_tasks(rng: &mut Rng, first_id: u64) -> Vec<Vec<WriteSpec>> {
     let ntasks = rng.gen_range(1..=6usize);
     let mut id = first_id;
     let concurrent = rng.gen_bool(0.6);
-    (0..ntasks)
+    let mut tasks: Vec<Vec<WriteSpec>> = (0..ntasks)
         .map(|_| {
             let n = rng.gen_range(1..=4usize);
             (0..n)
                 .map(|_| {
                     id += 1;
                     let vlen = *[0usize, 1, 2, 2, 5, 17, 40].get(rng.gen_range(0..7)).unwrap();
-                    let sleep_us = if concurrent { 0 } else { *[0u64, 0, 1, 10, 49, 50, 51, 120, 400].get(rng.gen_range(0..9)).unwrap() };
+                    let sleep_us = if concurrent { 0 } else { *[0u64, 0, 10, 1000, 1000, 2000, 2000, 3000, 5000].get(rng.gen_range(0..9)).unwrap() };
                     WriteSpec { id, vlen, sleep_us }
                 })
                 .collect()
         })
-        .collect()
+        .collect();
+    // the id is also the entry's timestamp: stamps reach the actor out of order (per-shard
+    // Lamport times of concurrent writers), so a file can hold e.g. 5, 1, 3
+    if rng.gen_bool(0.65) {
+        use rand::seq::SliceRandom;
+        let mut ids: Vec<u64> = tasks.iter().flatten().map(|s| s.id).collect();
+        ids.shuffle(rng);
+        let mut it = ids.into_iter();
+        for s in tasks.iter_mut().flatten() {
+            s.id = it.next().unwrap();
+        }
+    }
+    tasks
 }
 
 fn gen_shape(rng: &mut Rng, tasks: &[Vec<WriteSpec>]) -> Shape {
@@ -674,7 +810,7 @@ fn gen_shape(rng: &mut Rng, tasks: &[Vec<WriteSpec>]) -> Shape {
     let per_file = rng.gen_range(0..=5usize);
     let max_file_size = if per_file == 5 { 1 << 20 } else { WAL_HEADER_SIZE + 1 + per_file * avg + rng.gen_range(0..avg) };
     let max_entries = *[1usize, 2, 3, 4, 8, 8, 64].get(rng.gen_range(0..7)).unwrap();
-    let max_wait_us = *[0u64, 50, 50, 200].get(rng.gen_range(0..4)).unwrap();
+    let max_wait_us = *[0u64, 50, 50, 200, 2000, 4000].get(rng.gen_range(0..6)).unwrap();
     Shape { max_file_size, max_entries, max_wait_us }
 }
 
@@ -696,6 +832,7 @@ fn plant_faults(rng: &mut Rng, plan: &mut Plan, init: &Image, multi: u64) -> Str
                     acks_since = 0;
                 }
                 Item::Ack(..) => acks_since += 1,
+                Item::Trunc(_) => acks_since = 0,
                 Item::Down => {
                     if let Some((idx, true)) = last {
                         if acks_since > 0 && dry.shutdown_with_pending {
@@ -759,6 +896,7 @@ fn c_call(c: &Call) -> String {
         Call::Create(s) => format!("(CC {})", s),
         Call::Hdr(s) => format!("(CH {})", s),
         Call::Ent(s, id, _) => format!("(CE {} {})", s, id),
+        Call::Del(s) => format!("(CD {})", s),
     }
 }
 fn c_item(i: &Item) -> String {
@@ -766,6 +904,7 @@ fn c_item(i: &Item) -> String {
         Item::Io(c, o) => format!("IO {} {}", c_call(c), c_outc(o)),
         Item::Ack(id, ok) => format!("AK {} {}", id, cbool(*ok)),
         Item::Down => "DN".to_string(),
+        Item::Trunc(t) => format!("TR {}", t),
     }
 }
 fn c_sched(s: &Sched) -> String {
@@ -773,6 +912,7 @@ fn c_sched(s: &Sched) -> String {
         Sched::Write(id, sz) => format!("SW {} {}", id, sz),
         Sched::Flush => "SF".to_string(),
         Sched::Shutdown => "SD".to_string(),
+        Sched::Trunc(t) => format!("ST {}", t),
     }
 }
 fn c_ids(v: &[u64]) -> String {
@@ -818,8 +958,9 @@ fn main() {
         let mut vlens: BTreeMap<u64, usize> = BTreeMap::new();
         let mut incs: Vec<Incarnation> = Vec::new();
         let mut flabels: Vec<String> = Vec::new();
-        let (shape, n_inc) = match fixed_plan(i) {
-            Some(p) => (Shape { max_file_size: p.max_file_size, max_entries: p.max_entries, max_wait_us: p.max_wait_us }, 1usize),
+        let fixed = fixed_history(i);
+        let (shape, n_inc) = match &fixed {
+            Some(h) => (Shape { max_file_size: h[0].0.max_file_size, max_entries: h[0].0.max_entries, max_wait_us: h[0].0.max_wait_us }, h.len()),
             None => {
                 let probe = gen_tasks(&mut rng.clone(), 0);
                 let r = rng.gen_range(0..100u32);
@@ -830,16 +971,33 @@ fn main() {
         let mut keep: Vec<(u64, usize)> = Vec::new();
         let mut prior_acked: Vec<u64> = Vec::new();
         let mut next_id = 0u64;
+        let mut all_ids: Vec<u64> = Vec::new();
         for k in 0..n_inc {
-            let plan = match fixed_plan(i) {
-                Some(p) => {
+            let plan = match &fixed {
+                Some(h) => {
                     flabels.push("fixed-scenario".into());
-                    p
+                    h[k].0.clone()
                 }
                 None => {
                     let tasks = gen_tasks(&mut rng, next_id);
-                    let shutdown_at_us = if rng.gen_range(0..100u32) < 30 { Some(*[0u64, 0, 1, 10, 30, 49, 50, 51, 60, 100, 150, 250, 500].get(rng.gen_range(0..13)).unwrap()) } else { None };
-                    let mut plan = Plan { max_file_size: shape.max_file_size, max_entries: shape.max_entries, max_wait_us: shape.max_wait_us, tasks, faults: BTreeMap::new(), shutdown_at_us };
+                    let shutdown_at_us = if rng.gen_range(0..100u32) < 30 { Some(*[0u64, 0, 10, 50, 1000, 1000, 2000, 2000, 3000, 4000, 6000].get(rng.gen_range(0..11)).unwrap()) } else { None };
+                    let times = [0u64, 0, 10, 1000, 1000, 2000, 2000, 3000, 4000, 6000, 8000];
+                    let mut truncs = Vec::new();
+                    if rng.gen_range(0..100u32) < 35 {
+                        let mut pool: Vec<u64> = all_ids.clone();
+                        pool.extend(tasks.iter().flatten().map(|s| s.id));
+                        for _ in 0..rng.gen_range(1..=2usize) {
+                            let base = pool[rng.gen_range(0..pool.len())];
+                            let t = match rng.gen_range(0..10u32) {
+                                0 => 0,
+                                1 => pool.iter().max().unwrap() + 10,
+                                2 | 3 => base.saturating_sub(1),
+                                _ => base,
+                            };
+                            truncs.push((times[rng.gen_range(0..times.len())], t));
+                        }
+                    }
+                    let mut plan = Plan { max_file_size: shape.max_file_size, max_entries: shape.max_entries, max_wait_us: shape.max_wait_us, tasks, faults: BTreeMap::new(), shutdown_at_us, truncs };
                     flabels.push(plant_faults(&mut rng, &mut plan, &image, multi));
                     plan
                 }
@@ -847,17 +1005,34 @@ fn main() {
             for s in plan.tasks.iter().flatten() {
                 vlens.insert(s.id, s.vlen);
                 next_id = next_id.max(s.id);
+                all_ids.push(s.id);
             }
             let run = run_plan(&plan, &image);
             let last = k + 1 == n_inc;
-            let crash_at = if last { run.ncalls } else { rng.gen_range(0..=run.ncalls) };
+            // instants at which the newest file exists but nothing of it is synced yet
+            // (just after a rotation), with at least one older file
+            let fresh: Vec<usize> = (0..=run.ncalls)
+                .filter(|j| {
+                    let sn = &run.snaps[*j];
+                    sn.len() >= 2 && sn.iter().max_by_key(|x| seq_of(&x.0)).map(|x| x.2 == 0).unwrap_or(false)
+                })
+                .collect();
+            let crash_at = match &fixed {
+                Some(h) => h[k].1.unwrap_or(run.ncalls),
+                None if last => run.ncalls,
+                None if !fresh.is_empty() && rng.gen_bool(0.4) => fresh[rng.gen_range(0..fresh.len())],
+                None => rng.gen_range(0..=run.ncalls),
+            };
+            if !last && fresh.contains(&crash_at) {
+                flabels.push("crash-right-after-rotation(new-file-unsynced)".into());
+            }
             // what the crash leaves for the next incarnation
             let mut next_image: Image = BTreeMap::new();
             let mut next_keep = Vec::new();
             let spare = rng.gen_bool(0.3);
             if !last {
-                for (name, synced, len) in &run.snaps[crash_at] {
-                    let f = &run.files[name];
+                for (name, g, synced, len) in &run.snaps[crash_at] {
+                    let f = &run.files[g];
                     let have = f.ends.iter().filter(|e| **e <= *len).count();
                     let sure = f.ends.iter().filter(|e| **e <= *synced).count();
                     let kept = if spare { rng.gen_range(sure..=have) } else { sure };
@@ -881,6 +1056,7 @@ fn main() {
                 "max_file_size": plan.max_file_size, "group_commit_max_entries": plan.max_entries, "group_commit_max_wait_us": plan.max_wait_us,
                 "writer_tasks": plan.tasks.iter().map(|t| t.iter().map(|s| json!({"id": s.id, "value_len": s.vlen, "sleep_us": s.sleep_us})).collect::<Vec<_>>()).collect::<Vec<_>>(),
                 "shutdown_sent_at_us": plan.shutdown_at_us,
+                "truncate_requests_at_us_and_watermark": plan.truncs,
                 "faults": plan.faults.iter().map(|(k, f)| json!({"call": k, "kind": f.kind, "frac": f.frac})).collect::<Vec<_>>(),
                 "items_kept_per_file_by_the_preceding_crash": inc.keep,
                 "acked_ok_by_earlier_incarnations": inc.prior_acked,
@@ -890,12 +1066,39 @@ fn main() {
             })
         };
         let mut recovered_last: Vec<Vec<u64>> = Vec::new();
+        // acked writes of earlier incarnations that a truncation has released (stamp <= watermark)
+        let mut exempt_prior: BTreeSet<u64> = BTreeSet::new();
+        let mut n_exempt_checks = 0u64;
         for (k, inc) in incs.iter().enumerate() {
             let run = &inc.run;
+            // truncations the actor started: (I/O calls completed before, position in the log, watermark)
+            let mut truncs_here: Vec<(usize, usize, u64)> = Vec::new();
+            let mut handled_pos: BTreeMap<u64, usize> = BTreeMap::new();
+            {
+                let mut calls = 0usize;
+                for (p, it) in run.items.iter().enumerate() {
+                    match it {
+                        Item::Io(c, _) => {
+                            if let Call::Ent(_, id, _) = c {
+                                handled_pos.entry(*id).or_insert(p);
+                            }
+                            calls += 1;
+                        }
+                        Item::Trunc(t) => truncs_here.push((calls, p, *t)),
+                        _ => {}
+                    }
+                }
+            }
+            // an entry stamped <= t may legitimately disappear once truncate_before(t) has
+            // started after the entry was appended (entries of earlier incarnations: always)
+            let exempt = |w: u64, j: usize, prior: bool, exempt_prior: &BTreeSet<u64>| -> bool {
+                (prior && exempt_prior.contains(&w))
+                    || truncs_here.iter().any(|(c, p, t)| w <= *t && j >= c + 1 && (prior || handled_pos.get(&w).map(|hp| hp < p).unwrap_or(false)))
+            };
             let mut first_bad: Option<Value> = None;
             let mut first_bad_returned: Option<usize> = None;
             let mut bad_payload: Vec<(usize, u64)> = Vec::new();
-            let mut cache: BTreeMap<Vec<(String, usize, usize)>, Vec<u64>> = BTreeMap::new();
+            let mut cache: BTreeMap<Vec<(String, usize, usize, usize)>, Vec<u64>> = BTreeMap::new();
             for j in 0..=run.ncalls {
                 out.impl_checks += 2;
                 let rec_ids = match cache.get(&run.snaps[j]) {
@@ -908,36 +1111,55 @@ fn main() {
                     }
                 };
                 let rec: BTreeSet<u64> = rec_ids.iter().copied().collect();
-                let mut acked: Vec<u64> = inc.prior_acked.clone();
-                acked.extend(run.acked_at[j].iter().copied());
+                let mut acked: Vec<u64> = inc.prior_acked.iter().copied().filter(|w| !exempt(*w, j, true, &exempt_prior)).collect();
+                let all_acked = inc.prior_acked.len() + run.acked_at[j].len();
+                acked.extend(run.acked_at[j].iter().copied().filter(|w| !exempt(*w, j, false, &exempt_prior)));
                 acked.sort();
+                n_exempt_checks += (all_acked - acked.len()) as u64;
                 let lost: Vec<u64> = acked.iter().copied().filter(|x| !rec.contains(x)).collect();
                 if !lost.is_empty() && first_bad.is_none() {
-                    first_bad = Some(json!({"incarnation": k, "crash_after_calls": j, "acked_ok": acked, "recovered": rec_ids, "lost": lost}));
+                    let from_earlier: Vec<u64> = lost.iter().copied().filter(|x| inc.prior_acked.contains(x)).collect();
+                    first_bad = Some(json!({"incarnation": k, "crash_after_calls": j, "acked_ok_and_not_released_by_a_truncation": acked, "recovered": rec_ids, "lost": lost,
+                        "lost_entries_acked_by_an_earlier_incarnation": from_earlier, "truncations_started_so_far(calls_before,watermark)": truncs_here.iter().filter(|(c, _, _)| j >= c + 1).map(|(c, _, t)| (*c, *t)).collect::<Vec<_>>()}));
                 }
-                if inc.prior_acked.iter().chain(run.returned_at[j].iter()).any(|x| !rec.contains(x)) && first_bad_returned.is_none() {
+                if inc.prior_acked.iter().chain(run.returned_at[j].iter()).any(|x| !rec.contains(x) && acked.contains(x)) && first_bad_returned.is_none() {
                     first_bad_returned = Some(j);
                 }
                 // a crash that spares a random part (byte granularity) of the unsynced tails
-                let cuts: Vec<(String, &[u8])> = run.snaps[j].iter().map(|(n, synced, len)| (n.clone(), &run.files[n].data[..rng.gen_range(*synced..=*len)])).collect();
+                let cuts: Vec<(String, &[u8])> = run.snaps[j].iter().map(|(n, g, synced, len)| (n.clone(), &run.files[g].data[..rng.gen_range(*synced..=*len)])).collect();
                 let (ids2, bad2) = recover_image(&cuts, inc.plan.max_file_size, &vlens);
                 bad_payload.extend(bad2.into_iter().map(|b| (j, b)));
                 let rec2: BTreeSet<u64> = ids2.iter().copied().collect();
                 let lost2: Vec<u64> = acked.iter().copied().filter(|x| !rec2.contains(x)).collect();
                 if !lost2.is_empty() && first_bad.is_none() {
-                    first_bad = Some(json!({"incarnation": k, "crash_after_calls": j, "unsynced_bytes_kept": cuts.iter().map(|(n, d)| (n.clone(), d.len())).collect::<Vec<_>>(), "acked_ok": acked, "recovered": ids2, "lost": lost2}));
+                    let from_earlier: Vec<u64> = lost2.iter().copied().filter(|x| inc.prior_acked.contains(x)).collect();
+                    first_bad = Some(json!({"incarnation": k, "crash_after_calls": j, "unsynced_bytes_kept": cuts.iter().map(|(n, d)| (n.clone(), d.len())).collect::<Vec<_>>(), "acked_ok_and_not_released_by_a_truncation": acked, "recovered": ids2, "lost": lost2,
+                        "lost_entries_acked_by_an_earlier_incarnation": from_earlier}));
                 }
                 if k + 1 == incs.len() {
                     recovered_last.push(rec_ids);
                 }
             }
             if let Some(b) = first_bad {
+                let b_has_earlier = b["lost_entries_acked_by_an_earlier_incarnation"].as_array().map(|a| !a.is_empty()).unwrap_or(false);
                 let mut d = describe(inc);
                 d["first_failing_crash_instant"] = b;
                 d["also_fails_counting_only_returned_calls_at_instant"] = json!(first_bad_returned);
                 d["history"] = json!(incs.iter().map(|x| describe(x)).collect::<Vec<_>>());
-                out.violation(i, "a write acked Ok by write_durable is not returned by recover_all_entries after a crash (acked not a subset of recovered)", d);
+                let earlier = b_has_earlier;
+                let what = if earlier {
+                    "a write acked Ok by an EARLIER incarnation is missing from recover_all_entries after a later incarnation's I/O (acked not a subset of recovered)"
+                } else if !truncs_here.is_empty() {
+                    "a write acked Ok by write_durable, stamped above every truncation watermark, is not returned by recover_all_entries after a crash (acked not a subset of recovered)"
+                } else {
+                    "a write acked Ok by write_durable is not returned by recover_all_entries after a crash (acked not a subset of recovered)"
+                };
+                out.violation(i, what, d);
             }
+            // what this incarnation's truncations released, for the incarnations that follow
+            let at = inc.crash_at;
+            let newly: Vec<u64> = inc.prior_acked.iter().copied().filter(|w| exempt(*w, at, true, &exempt_prior)).chain(run.acked_at[at].iter().copied().filter(|w| exempt(*w, at, false, &exempt_prior))).collect();
+            exempt_prior.extend(newly);
             if !bad_payload.is_empty() {
                 out.violation(i, "recovery returned an entry that is not bit-identical to a written one", json!({"instants_and_ids": bad_payload, "run": describe(inc)}));
             }
@@ -1006,7 +1228,7 @@ fn main() {
                             open -= 1;
                         }
                     }
-                    Item::Down => burst = 0,
+                    Item::Down | Item::Trunc(_) => burst = 0,
                     Item::Io(c, o) => {
                         burst = 0;
                         if open > 0 && matches!(c, Call::Create(_)) {
@@ -1025,9 +1247,31 @@ fn main() {
                 if let Item::Io(c, Outc::Err(e)) = it {
                     out.count(&format!(
                         "fault:{}:{}",
-                        match c { Call::Sync(_) => "sync", Call::Create(_) => "create", Call::Hdr(_) => "header", Call::Ent(..) => "append" },
+                        match c { Call::Sync(_) => "sync", Call::Create(_) => "create", Call::Hdr(_) => "header", Call::Ent(..) => "append", Call::Del(_) => "delete" },
                         match e { Eff::None => "nothing-written", Eff::Torn => "partial", Eff::Full => "done-but-error" }
                     ));
+                }
+            }
+            // truncation statistics
+            {
+                let mut per_file: BTreeMap<u64, Vec<u64>> = BTreeMap::new();
+                let mut newest = 0u64;
+                for it in &run.items {
+                    match it {
+                        Item::Io(Call::Ent(sq, id, _), o) if !matches!(o, Outc::Err(Eff::None) | Outc::Err(Eff::Torn)) => per_file.entry(*sq).or_default().push(*id),
+                        Item::Io(Call::Hdr(sq), Outc::Ok) => newest = *sq,
+                        Item::Io(Call::Del(sq), o) => {
+                            out.count(if *o == Outc::Ok { "truncate:file-deleted" } else { "truncate:delete-failed" });
+                            per_file.remove(sq);
+                        }
+                        Item::Trunc(t) => {
+                            out.count("truncate:requests-handled");
+                            if per_file.iter().any(|(sq, l)| *sq != newest && l.last().map(|x| x <= t).unwrap_or(false) && l.iter().any(|x| x > t)) {
+                                out.count("truncate:closed-file-with-last-stamp<=T<max-stamp(must-survive)");
+                            }
+                        }
+                        _ => {}
+                    }
                 }
             }
             if let Some(p) = run.items.iter().position(|x| *x == Item::Down) {
@@ -1052,6 +1296,9 @@ fn main() {
             out.count(l);
         }
         out.count(&format!("incarnations:{}", incs.len()));
+        if n_exempt_checks > 0 {
+            out.count("histories-where-a-truncation-released-acked-entries");
+        }
         if incs.iter().skip(1).any(|x| x.keep.iter().any(|_| true)) && incs.len() > 1 {
             out.count("restart_on_nonempty_store");
         }
